@@ -21,7 +21,7 @@ Files == [inc |-> Probe \o <<Set("a", Lit(I(8))), Set("q", Lit(I(1)))>> \o Probe
 
 \* the constructs: Wrap(k, body) puts body inside construct k, with probes before and after
 Kinds == <<"with_a", "with_b", "with_ab", "with_a_from_b", "for_a", "for_b", "macro_a", "macro_0", "if", "set_a", "set_b",
-           "include", "include_only", "autoescape", "filtertag", "ifchanged", "spaceless_like_if", "macro_ab_omit", "macro_g_omit", "widthratio_a", "spaceless", "for_empty">>
+           "include", "include_only", "autoescape", "filtertag", "ifchanged", "spaceless_like_if", "macro_ab_omit", "macro_g_omit", "widthratio_a", "spaceless", "for_empty", "filter_length", "filter_upper", "macro_len">>
 
 Wrap(k, body) ==
   CASE k = "with_a" -> << [t |-> "with", pairs |-> <<[name |-> "a", e |-> Lit(I(1))]>>, body |-> body] >>
@@ -43,6 +43,11 @@ Wrap(k, body) ==
                                 Out([t |-> "call", name |-> "m3", args |-> <<>>]) >>
     [] k = "widthratio_a" -> << [t |-> "widthratio", a |-> Lit(I(1)), m |-> Lit(I(4)), w |-> Lit(I(10)), as |-> "a"] >> \o body     \* binds a (= 3) like set
     [] k = "spaceless" -> << [t |-> "spaceless", body |-> body] >>
+    \* constructs that capture what their body renders and hand on something computed from it
+    [] k = "filter_length" -> << [t |-> "filter", chain |-> <<[f |-> "length", arg |-> NoDef]>>, body |-> body] >>
+    [] k = "filter_upper" -> << [t |-> "filter", chain |-> <<[f |-> "upper", arg |-> NoDef]>>, body |-> body] >>
+    [] k = "macro_len" -> << [t |-> "macro", name |-> "ml", params |-> <<>>, body |-> body, export |-> FALSE],
+                             Out([t |-> "filt", e |-> [t |-> "call", name |-> "ml", args |-> <<>>], chain |-> <<[f |-> "length", arg |-> NoDef]>>]) >>
     [] k = "if" -> << [t |-> "if", conds |-> <<Lit(I(1))>>, bodies |-> <<body>>] >>
     [] k = "set_a" -> <<Set("a", Lit(I(6)))>> \o body
     [] k = "set_b" -> <<Set("b", Var(<<"a">>))>> \o body
@@ -68,6 +73,10 @@ ApiProgs == << Probe,
                <<[t |-> "macro", name |-> "mx", params |-> <<>>, body |-> <<T(<<"m">>)>>, export |-> TRUE]>> \o Probe,
                <<[t |-> "macro", name |-> "mx", params |-> <<>>, body |-> <<T(<<"m">>)>>, export |-> FALSE], Out([t |-> "call", name |-> "mx", args |-> <<>>])>> \o Probe >>
 
+\* (family "sp", C15) spaceless nested in, around and next to constructs that capture their body: every spaceless block strips
+\* the white space between tags of what *it* renders
+SpKinds == {"spaceless", "filter_length", "filter_upper", "macro_len", "macro_0", "if", "for_b", "autoescape", "with_a"}
+SpBody == << T(<<"<", "p", ">", " ", "<", "b", ">", " ", "TAB", "<", "i", ">", "NL", "<", "/", "i", ">", " ", "x", " ", "<", "/", "b", ">", " ", " ", "<", "/", "p", ">">>) >>
 VARIABLES prog, go, actx, aglob
 NestInit ==
   /\ \E k1 \in 1..Len(Kinds), k2 \in 1..Len(Kinds), k3 \in 1..Len(Kinds), inn \in 1..Len(Innermost) :
@@ -79,6 +88,12 @@ Init ==
   /\ IF Family = "api"
        THEN \E p \in 1..Len(ApiProgs), c \in 1..Len(ApiCtxs), g \in 1..Len(ApiGlobals) :
               prog = ApiProgs[p] /\ actx = ApiCtxs[c] /\ aglob = ApiGlobals[g]
+       ELSE IF Family = "sp"
+       THEN /\ actx = Ctx /\ aglob = Globals
+            /\ \E k1 \in 1..Len(Kinds), k2 \in 1..Len(Kinds), k3 \in 1..Len(Kinds) :
+                 /\ Kinds[k1] \in SpKinds /\ Kinds[k2] \in SpKinds /\ Kinds[k3] \in SpKinds
+                 /\ "spaceless" \in {Kinds[k1], Kinds[k2], Kinds[k3]}
+                 /\ prog = <<T(<<"<", "a", ">", " ">>)>> \o Wrap(Kinds[k1], SpBody \o Wrap(Kinds[k2], <<T(<<" ">>)>> \o Wrap(Kinds[k3], SpBody) \o SpBody)) \o <<T(<<" ", "<", "/", "a", ">">>)>>
        ELSE actx = Ctx /\ aglob = Globals /\ NestInit
 Next == go = FALSE /\ go' = TRUE /\ UNCHANGED <<prog, actx, aglob>>
 
